@@ -108,6 +108,15 @@ def main():
     out["twin_message"] = tw["message"][:300]
     out["twin_secs"] = round(tw["secs"], 2)
     twin_ok = tw["state"] in ("post_fail", "exec_err") and "REACH" in tw["message"]
+    if tw["state"] in ("post_fail", "exec_err", "post_err") and "REACH" not in tw["message"]:
+        # the very first exploration already violated an assertion (e.g. an effect that only happens once per
+        # process): that is a counterexample in its own right
+        out.update({"state": tw["state"], "message": tw["message"][:2000], "secs": 0.0, "traceback": tw.get("traceback", ""),
+                    "verdict": "CEX"})
+        m = CALL_RE.search(tw["message"])
+        out["call"] = m.group(1) if m else None
+        print("XHRESULT " + json.dumps(out))
+        return
     # (2) the real thing
     res = analyse(fn, spec["timeout"])
     out["state"] = res["state"]
